@@ -3,6 +3,11 @@
 #define GUARD 64
 #define FILL 0xA5
 
+/* stack clause for the entropy crypt_gensalt* draws itself (C09): defined in ops_crypt.h */
+static void wset_build (const unsigned char *ph, size_t pl);
+static void stack_poison (void);
+static int stack_scan (void);
+
 /* G <entry:rn|ra|st> <prefix> <count> <rbytes> <nrbytes> <osize>
    -> ret=<hex|NULL> errno=<..> buf=<hex|-|unterminated> hi=<n> guard=<ok|bad> abort=<0|1> */
 static void op_gensalt (int n, char **tok)
@@ -21,6 +26,11 @@ static void op_gensalt (int n, char **tok)
   long osize = atol (tok[6]);
   char *ret = NULL; int e = 0; int aborted = 0;
   os_pos = 0;
+  /* XC_STACKSCAN: with rbytes == NULL the library draws its entropy from the (interposed) OS source into a stack buffer;
+     after the call no 8-byte window of those bytes may remain in the stack region the call used (-O0 build) */
+  static int gstackscan = -1; volatile int gstk = 0;
+  if (gstackscan < 0) gstackscan = getenv ("XC_STACKSCAN") != NULL;
+  int gscan = gstackscan && rnull && !os_real && os_len >= 8;
 
   if (!strcmp (entry, "rn"))
     {
@@ -29,11 +39,13 @@ static void op_gensalt (int n, char **tok)
       memset (region, FILL, GUARD + body + GUARD);
       char *out = (char *)region + GUARD;
       jmp_buf jb; abort_jmp = &jb;
+      if (gscan) { wset_build (os_bytes, os_len); stack_poison (); }
       if (!setjmp (jb))
         {
           in_call = 1; errno = ENTRY_ERRNO;
           ret = crypt_gensalt_rn ((const char *)prefix, count, (const char *)rb, nrbytes, out, (int)osize);
           e = errno; last_errno = e; in_call = 0;
+          if (gscan) gstk = stack_scan ();
         }
       else { in_call = 0; aborted = 1; e = 0; ret = NULL; }
       int guard_ok = 1;
@@ -46,25 +58,31 @@ static void op_gensalt (int n, char **tok)
       printf (" errno=%s buf=", ret ? "0" : errname (e));
       if (body == 0) printf ("-");
       else { size_t l = strnlen (out, body); if (l == body) printf ("unterminated"); else puthex ((unsigned char *)out, l); }
-      printf (" hi=%zu guard=%s abort=%d\n", hi, guard_ok ? "ok" : "bad", aborted);
+      printf (" hi=%zu guard=%s abort=%d", hi, guard_ok ? "ok" : "bad", aborted);
+      if (gscan) printf (" stk=%d", gstk);
+      printf ("\n");
       free (region);
     }
   else
     {
       jmp_buf jb; abort_jmp = &jb;
+      if (gscan) { wset_build (os_bytes, os_len); stack_poison (); }
       if (!setjmp (jb))
         {
           in_call = 1; errno = ENTRY_ERRNO;
           if (!strcmp (entry, "ra")) ret = crypt_gensalt_ra ((const char *)prefix, count, (const char *)rb, nrbytes);
           else ret = crypt_gensalt ((const char *)prefix, count, (const char *)rb, nrbytes);
           e = errno; last_errno = e; in_call = 0;
+          if (gscan) gstk = stack_scan ();
         }
       else { in_call = 0; aborted = 1; e = 0; ret = NULL; }
       printf ("ret=");
       if (!ret) printf ("NULL"); else puthex ((unsigned char *)ret, strnlen (ret, CRYPT_GENSALT_OUTPUT_SIZE));
       printf (" errno=%s buf=", ret ? "0" : errname (e));
       if (ret) puthex ((unsigned char *)ret, strnlen (ret, CRYPT_GENSALT_OUTPUT_SIZE)); else printf ("?");
-      printf (" hi=0 guard=ok abort=%d\n", aborted);
+      printf (" hi=0 guard=ok abort=%d", aborted);
+      if (gscan) printf (" stk=%d", gstk);
+      printf ("\n");
       if (ret && !strcmp (entry, "ra")) free (ret);
     }
   free (prefix); free (rb);
